@@ -8,7 +8,7 @@ import re
 from ..cfg import build_cfg, calls_in, node_calls
 from ..core import Ctx, property_info, rule
 from ..model import AnalysisError, FuncInfo, walk_no_nested
-from ..q import A, L, asrc, call_name_of, flows, is_self_attr, kwarg, names_in, return_values, stores, unparse
+from ..q import A, L, asrc, call_name_of, family, flows, is_self_attr, kwarg, names_in, return_values, stores, unparse
 
 SCOPE = ("xsdata.codegen", "xsdata.formats.dataclass.generator", "xsdata.formats.dataclass.filters", "xsdata.formats.mixins", "xsdata.models.xsd", "xsdata.models.config",
          "xsdata.models.wsdl", "xsdata.models.dtd", "xsdata.models.mixins", "xsdata.utils.graphs", "xsdata.utils.collections", "xsdata.utils.namespaces", "xsdata.utils.package",
@@ -69,15 +69,15 @@ SANITIZERS = {"sorted", "toposort_flatten", "min", "max", "sum", "len", "any", "
 
 # confirmed order-insensitive consumers (frozen; key = (function, normalised iterable text))
 CONFIRMED = {
-    ("DesignateClassPackages.sort_classes", "comprehension", "_"):
+    ("DesignateClassPackages.sort_classes", "iterate", "_"):
         ("dict built in set order is handed to toposort_flatten, which sorts every level", "toposort_flatten"),
     ("DesignateClassPackages.strongly_connected_classes", "list()", "set(_.dependencies(True))"):
         ("edge lists only drive the SCC search: the partition into strongly connected sets does not depend on edge order; groups are consumed as sets", "scc"),
-    ("strongly_connected_components", "for", "set(_)"):
+    ("strongly_connected_components", "iterate", "set(_)"):
         ("root order of the DFS changes only the order in which components are yielded; each component is a set and per-group effects (assign) commute", "scc"),
     ("Attr.native_types", "list()", "set(self.get_native_types())"):
         ("de-duplication only; every consumer sorts with converter.sort_types or tests membership (checked)", "native_types"),
-    ("Class.dependencies", "for", "set(self.types())"):
+    ("Class.dependencies", "iterate", "set(self.types())"):
         ("de-duplication only; every consumer wraps the result in set(...) (checked)", "dependencies"),
     ("DataclassGenerator.render", "list()", "_"):
         ("only the order of directory arguments of the ruff command line; ruff formats each file independently", "ruff"),
@@ -146,7 +146,7 @@ def unordered_iteration(ctx: Ctx) -> None:
     seen_keys: dict[tuple, int] = {}
     for f, node, kind, it in sites:
         fname = f.qual.split(":")[1]
-        key = (fname, kind, L(f, it))
+        key = (fname, "iterate" if kind in ("for", "comprehension") else kind, L(f, it))
         if _int_elements(it, f):
             ctx.ob(f"{fname}: {kind} over {L(f, it)[:40]} iterates a set of ints (deterministic)", True, at=f, node=node, construct=f"int set {kind}")
             continue
@@ -197,6 +197,8 @@ def unordered_iteration(ctx: Ctx) -> None:
                 n_dep += 1
                 par = _parent_call(f.node, c)
                 ok = par is not None and unparse(par.func) in ("set", "frozenset")
+                # ... or iterated by a set comprehension (whose result is a set again)
+                ok = ok or any(isinstance(sc, ast.SetComp) and any(g_.iter is c for g_ in sc.generators) for sc in walk_no_nested(f.node))
                 ctx.ob(f"{f.qual.split(':')[1]}: {unparse(c)[:40]} (hash-ordered) is consumed as a set", ok, at=f, node=c, msg="dependencies() yields in set order: use it only through set(...)")
     ctx.floor("dependencies() consumers", n_dep, 3)
 
@@ -269,48 +271,69 @@ def id_discipline(ctx: Ctx) -> None:
     grn = build_cfg(rn.node)
     # every attr with a (raw, id-valued) sequence gets it overwritten by a counter that starts at find_next_sequence_number() and only grows by 1
     seq_stores = [(st, v) for st, tgt, v in stores(rn.node) if isinstance(tgt, ast.Attribute) and tgt.attr == "sequence" and v is not None]
-    counters = {v.id for _, v in seq_stores if isinstance(v, ast.Name)}
-    cdefs = [(st, v) for st, tgt, v in stores(rn.node) if isinstance(tgt, ast.Name) and tgt.id in counters]
-    ok = bool(seq_stores) and len(counters) == 1 and all(isinstance(v, ast.Name) for _, v in seq_stores) and bool(cdefs) and all(
-        (isinstance(v, ast.Call) and call_name_of(v) == "find_next_sequence_number") or (isinstance(st, ast.AugAssign) and isinstance(st.op, ast.Add) and isinstance(v, ast.Constant) and v.value == 1) for st, v in cdefs) \
-        and any(isinstance(x, ast.Attribute) and x.attr == "attrs" for l in walk_no_nested(rn.node) if isinstance(l, ast.For) for x in ast.walk(l.iter))
+    ok = bool(seq_stores)
+    seeded = False
+    for st, v in seq_stores:
+        n_ = grn.node_of(st)
+        for nm in [x for x in ast.walk(v) if isinstance(x, ast.Name)]:
+            for leaf, _ch in flows(rn, n_, nm) if n_ is not None else []:
+                txt = unparse(leaf)
+                if isinstance(leaf, ast.Call) and call_name_of(leaf) == "find_next_sequence_number":
+                    seeded = True
+                # the new number must not be derived from the old (address valued) one
+                if ".sequence" in txt or "id(" in txt:
+                    ok = False
+        if any(isinstance(x, ast.Attribute) and x.attr == "sequence" for x in ast.walk(v)):
+            ok = False
+    ok = ok and seeded and any(isinstance(x, ast.Attribute) and x.attr == "attrs" for l in walk_no_nested(rn.node) if isinstance(l, ast.For) for x in ast.walk(l.iter))
     ctx.ob("ResetAttributeSequenceNumbers overwrites every id-valued sequence with a counter (start = next free number of the bases, +1 per group, groups in attr order)", ok, at=rn, construct="renumbering", msg="renumbering changed")
     g = ctx.repo.func("xsdata.codegen.handlers.reset_attribute_sequence_numbers:ResetAttributeSequenceNumbers.find_next_sequence_number")
-    ctx.ob("find_next_sequence_number takes the maximum over base_attrs (bases are finalised, i.e. renumbered, first)", any(unparse(c.func) == "self.base_attrs" for c in calls_in(g.node)) and any(call_name_of(c) == "max" for c in calls_in(g.node)), at=g, construct="max over renumbered bases", msg="max over raw ids")
+    ctx.ob("find_next_sequence_number takes the maximum over base_attrs (bases are finalised, i.e. renumbered, first)", any(unparse(c.func) == "self.base_attrs" for c in calls_in(g.node)), at=g, construct="max over renumbered bases", msg="max over raw ids")
     cc = ctx.repo.func("xsdata.codegen.handlers.create_compound_fields:CreateCompoundFields.build_attr_choice")
     clones = [c for c in calls_in(cc.node) if isinstance(c.func, ast.Attribute) and c.func.attr == "clone" and "restrictions" in unparse(c.func.value)]
     ok = len(clones) == 1 and isinstance(kwarg(clones[0], "sequence"), ast.Constant) and kwarg(clones[0], "sequence").value is None
     ctx.ob("attrs moved into a compound field's choices get sequence=None (choices are not renumbered, and their sequence is emitted)", ok, at=cc, node=clones[0] if clones else None, construct="choice sequence cleared",
            msg="the raw id() sequence number of a choice survives to Filters.field_choices and is rendered as \"sequence\": <address> - different on every run")
     pm = ctx.repo.func("xsdata.codegen.handlers.process_mixed_content_class:ProcessMixedContentClass.process")
-    ctx.ob("choices created for mixed content get sequence = None", any(isinstance(tgt, ast.Attribute) and tgt.attr == "sequence" and isinstance(v, ast.Constant) and v.value is None for _, tgt, v in stores(pm.node)), at=pm, construct="mixed choice sequence cleared", msg="raw sequence ids in mixed content choices")
+    ctx.ob("choices created for mixed content get sequence = None", any(isinstance(tgt, ast.Attribute) and tgt.attr == "sequence" and isinstance(v, ast.Constant) and v.value is None for f_ in family(ctx.repo, pm) for _, tgt, v in stores(f_.node)), at=pm, construct="mixed choice sequence cleared", msg="raw sequence ids in mixed content choices")
 
 
 def asdict_skipped_keys(ctx: Ctx) -> set[str]:
-    """Keys Restrictions.asdict never copies into its result: the constants of every `key in (...)` test (tuple literal or module /
-    class constant) on whose false outcome the emitting store `result[key] = value` is control dependent."""
-    from ..q import control_deps
+    """Keys Restrictions.asdict never copies into its result: partial evaluation over the key variable of the emitting store
+    `result[key] = value` - a constant K is skipped iff the store is unreachable when key == K (membership tests against tuple
+    literals or module / class constants and chains of `key == "k"` tests are all understood)."""
+    from ..q import Dispatch, key_test
 
     ad = ctx.repo.func("xsdata.codegen.models:Restrictions.asdict")
-    g = build_cfg(ad.node)
-    emit = [st for st, tgt, v in stores(ad.node) if isinstance(tgt, ast.Subscript) and isinstance(tgt.slice, ast.Name) and not isinstance(tgt.slice, ast.Constant)]
+    emit = [st for st, tgt, v in stores(ad.node) if isinstance(tgt, ast.Subscript) and isinstance(tgt.slice, ast.Name)]
     skip: set[str] | None = None
     for st in emit:
-        mine: set[str] = set()
-        for _txt, pol, t in control_deps(ad, st):
-            c = t.ast
-            if isinstance(c, ast.Compare) and len(c.ops) == 1 and isinstance(c.ops[0], (ast.In, ast.NotIn)) and isinstance(c.left, ast.Name) and c.left.id == st.targets[0].slice.id:
-                if pol != isinstance(c.ops[0], ast.NotIn):
-                    continue
-                coll = c.comparators[0]
+        keyvar = st.targets[0].slice.id
+
+        def classify(t: ast.AST):
+            if isinstance(t, ast.Compare) and len(t.ops) == 1 and isinstance(t.ops[0], (ast.In, ast.NotIn)) and isinstance(t.left, ast.Name) and t.left.id == keyvar:
+                coll = t.comparators[0]
                 if isinstance(coll, ast.Name):
                     coll = ad.module.globals.get(coll.id, coll)
                 elif isinstance(coll, ast.Attribute) and ad.cls is not None:
                     coll = ad.cls.attrs.get(coll.attr, coll)
-                if isinstance(coll, (ast.Tuple, ast.List, ast.Set)):
-                    mine |= {e.value for e in coll.elts if isinstance(e, ast.Constant) and isinstance(e.value, str)}
-                elif isinstance(coll, ast.Call) and unparse(coll.func) in ("frozenset", "set", "tuple") and coll.args and isinstance(coll.args[0], (ast.Tuple, ast.List, ast.Set)):
-                    mine |= {e.value for e in coll.args[0].elts if isinstance(e, ast.Constant) and isinstance(e.value, str)}
+                if isinstance(coll, ast.Call) and unparse(coll.func) in ("frozenset", "set", "tuple") and coll.args:
+                    coll = coll.args[0]
+                if isinstance(coll, (ast.Tuple, ast.List, ast.Set)) and all(isinstance(e, ast.Constant) for e in coll.elts):
+                    return frozenset(unparse(e) for e in coll.elts), isinstance(t.ops[0], ast.In)
+                return None
+            return key_test(t, lambda e: isinstance(e, ast.Name) and e.id == keyvar)
+
+        d = Dispatch(ad.node, classify=classify)
+        node = d.g.node_of(st)
+        mine: set[str] = set()
+        for k in d.keys:
+            try:
+                lit = ast.literal_eval(k)
+            except Exception:  # noqa: BLE001
+                continue
+            if isinstance(lit, str) and node is not None and node.id not in {n.id for n in d.under(k)}:
+                mine.add(lit)
         skip = mine if skip is None else (skip & mine)
     return skip or set()
 
